@@ -71,6 +71,8 @@ type UDPBackend struct {
 }
 
 type TCPBackend struct {
+	// guards conn: Send runs on the message loop, Close on the thread that removes the backend
+	sync.Mutex
 	localAddr             string
 	backendAddr           string
 	conn                  net.Conn
@@ -193,39 +195,53 @@ func (t *TCPBackend) Send(msg *Message) error {
 		return err
 	}
 
-	zap.L().Info("send message to TCP backend with conn", zap.String("backendAddr", t.backendAddr), zap.Any("conn", t.conn))
+	zap.L().Info("send message to TCP backend with conn", zap.String("backendAddr", t.backendAddr), zap.Any("conn", t.getConn()))
 
 	for i := 0; i < 2; i++ {
-		if t.conn == nil {
+		conn := t.getConn()
+		if conn == nil {
 			t.connect()
+			conn = t.getConn()
 		}
 
-		if t.conn == nil {
+		if conn == nil {
 			continue
 		}
 
-		n, err := t.conn.Write(b)
-		zap.L().Info("try to write message to TCP backend", zap.String("backendAddr", t.conn.RemoteAddr().String()), zap.String("localAddr", t.conn.LocalAddr().String()), zap.Int("bytesWritten", n))
+		n, err := conn.Write(b)
+		zap.L().Info("try to write message to TCP backend", zap.String("backendAddr", conn.RemoteAddr().String()), zap.String("localAddr", conn.LocalAddr().String()), zap.Int("bytesWritten", n))
 		if err == nil {
 			zap.L().Debug("Succeed to send message to backend", zap.String("backendAddr", t.backendAddr))
 			return nil
 		}
 		zap.L().Info("Fail to send message to backend", zap.String("backendAddr", t.backendAddr))
-		t.conn.Close()
-		t.conn = nil
+		conn.Close()
+		t.setConn(nil)
 	}
 	return fmt.Errorf("fail to send message to backend %s", t.backendAddr)
+}
+
+func (t *TCPBackend) getConn() net.Conn {
+	t.Lock()
+	defer t.Unlock()
+	return t.conn
+}
+
+func (t *TCPBackend) setConn(conn net.Conn) {
+	t.Lock()
+	defer t.Unlock()
+	t.conn = conn
 }
 
 func (t *TCPBackend) connect() error {
 	conn, err := net.Dial("tcp", t.backendAddr)
 	if err != nil {
 		zap.L().Error("Fail to connect backend", zap.String("backendAddr", t.backendAddr))
-		t.conn = nil
+		t.setConn(nil)
 		return err
 	}
 	zap.L().Info("Succeed to connect backend", zap.String("backendAddr", t.backendAddr), zap.String("remotAddr", conn.LocalAddr().String()))
-	t.conn = conn
+	t.setConn(conn)
 	t.connectionEstablished(conn)
 	return nil
 }
@@ -235,8 +251,8 @@ func (t *TCPBackend) GetAddress() string {
 }
 
 func (t *TCPBackend) Close() {
-	if t.conn != nil {
-		t.conn.Close()
+	if conn := t.getConn(); conn != nil {
+		conn.Close()
 	}
 }
 
